@@ -188,6 +188,8 @@ pub(crate) struct SchedState {
     pub(crate) switches_at_alloc: u64,
     pub(crate) progress: u64,
     pub(crate) stalls: u64,
+    /// OS thread ids of the caller threads (0 = unknown)
+    pub(crate) tids: Vec<u32>,
 }
 
 pub(crate) struct Sched {
@@ -200,6 +202,23 @@ pub(crate) struct Sched {
 }
 
 const STALL: Duration = Duration::from_millis(500);
+const POLL: Duration = Duration::from_millis(4);
+
+/// OS thread id of the calling thread (Linux), 0 if it cannot be told.
+fn own_tid() -> u32 {
+    std::fs::read_link("/proc/thread-self")
+        .ok()
+        .and_then(|p| p.file_name().and_then(|f| f.to_str()).and_then(|f| f.parse().ok()))
+        .unwrap_or(0)
+}
+
+/// Is that thread of this process sleeping in the kernel (state S)?
+fn thread_sleeps(tid: u32) -> bool {
+    match std::fs::read_to_string(format!("/proc/self/task/{}/stat", tid)) {
+        Ok(s) => s.rsplit_once(')').map(|(_, rest)| rest.trim_start().starts_with('S')).unwrap_or(false),
+        Err(_) => false,
+    }
+}
 
 impl Sched {
     pub(crate) fn new(n: usize, decisions: Vec<u8>, free: bool) -> Self {
@@ -221,6 +240,7 @@ impl Sched {
                 switches_at_alloc: 0,
                 progress: 0,
                 stalls: 0,
+                tids: vec![0; n],
             }),
             cv: Condvar::new(),
             decisions,
@@ -247,13 +267,43 @@ impl Sched {
     /// no progress for STALL (it blocks on something a parked thread owns —
     /// only possible with code that has introduced blocking shared state), the
     /// lowest parked thread takes the baton over so that the run terminates.
-    fn wait_for(&self, me: usize, mut st: std::sync::MutexGuard<'_, SchedState>) {
+    fn wait_for<'a>(&'a self, me: usize, mut st: std::sync::MutexGuard<'a, SchedState>) {
         st.parked[me] = true;
+        let mut waited = Duration::ZERO;
+        let mut asleep = 0u32;
+        let mut seen = st.progress;
         while st.current != me {
-            let seen = st.progress;
-            let (g, to) = self.cv.wait_timeout(st, STALL).unwrap();
+            let (g, to) = self.cv.wait_timeout(st, POLL).unwrap();
             st = g;
-            if to.timed_out() && st.current != me && st.progress == seen {
+            if st.current == me {
+                break;
+            }
+            if st.progress != seen || !to.timed_out() {
+                if st.progress != seen {
+                    seen = st.progress;
+                    waited = Duration::ZERO;
+                    asleep = 0;
+                }
+                continue;
+            }
+            waited += POLL;
+            // Is the holder blocked in the kernel? Its OS thread state tells within a
+            // few milliseconds (a thread that computes, or that the OS has merely
+            // descheduled, is never in state S); the wall-clock limit is the fallback.
+            let tid = st.tids[st.current];
+            if tid != 0 {
+                drop(st); // the holder may want this mutex: do not look at it while holding it
+                let sleeping = thread_sleeps(tid);
+                st = self.st.lock().unwrap();
+                if st.current == me {
+                    break;
+                }
+                if st.progress != seen {
+                    continue;
+                }
+                asleep = if sleeping { asleep + 1 } else { 0 };
+            }
+            if asleep >= 3 || waited >= STALL {
                 // only a thread that is really parked here can take over (the
                 // holder, and threads declared stalled earlier, may all be
                 // blocked in the kernel on something a parked thread owns)
@@ -264,6 +314,9 @@ impl Sched {
                     st.progress += 1;
                     self.cv.notify_all();
                 }
+                waited = Duration::ZERO;
+                asleep = 0;
+                seen = st.progress;
             }
         }
         st.parked[me] = false;
@@ -273,7 +326,9 @@ impl Sched {
         if self.free {
             return;
         }
-        let st = self.st.lock().unwrap();
+        let tid = if cfg!(miri) { 0 } else { own_tid() };
+        let mut st = self.st.lock().unwrap();
+        st.tids[me] = tid;
         self.wait_for(me, st);
     }
 
